@@ -220,30 +220,27 @@ func c23Gen(rt *rapid.T, r *evid.Rec) *hist.Case {
 }
 
 func TestC23(t *testing.T) {
-	r := evid.New("C23", "rapid: histories biased to error paths - v3.1/v3.1.1/v5 clients with Maximum Packet Size in {absent,20,60,200}, Request Problem Information {absent,0,1}, Request Response Information {0,1}; invalid CONNECTs of every kind; ACL denials (obscured or not); receive-maximum violations by non-acknowledging clients; takeovers; invalid and denied subscriptions; raw malformed packets; server maximum packet size and maximum QoS; oracle: every byte the broker wrote on every connection must split into packets the independent strict decoder accepts for that connection's version (framing, flags, direction, property and reason-code whitelists), nothing after DISCONNECT, size <= client maximum, problem/response information only when allowed; non-trivial = a connection that received a packet produced by an error path (failure CONNACK, DISCONNECT, negative acknowledgement); distinct by (history, connection)")
+	r := evid.New("C23", "rapid: histories biased to error paths - v3.1/v3.1.1/v5 clients with Maximum Packet Size in {absent,20,60,200}, Request Problem Information {absent,0,1}, Request Response Information {0,1}; invalid CONNECTs of every kind; ACL denials (obscured or not); receive-maximum violations by non-acknowledging clients; takeovers; invalid and denied subscriptions; raw malformed packets; server maximum packet size and maximum QoS; half of the cases are drawn from the generators of the other simulation-based checks (C07-C17, C19, C24, C25, C34, C38, C40: wills, aliases, expiry, hooks, permissions, bursts, inline API, ...); oracle: every byte the broker wrote on every connection must split into packets the independent strict decoder accepts for that connection's version (framing, flags, direction, property and reason-code whitelists), nothing after DISCONNECT, size <= client maximum, problem/response information only when allowed; non-trivial = a connection that received a packet produced by an error path (failure CONNACK, DISCONNECT, negative acknowledgement); distinct by (history, connection)")
 	defer r.Finish(t)
 	if evid.ReplayMode() {
 		evid.Replay(t, r, replayPath(), c23Check)
 		return
 	}
 	evid.Run(t, r, func(rt *rapid.T) *hist.Case {
-		// the wire rules are a universal invariant: besides the error-path generator, the histories of the other
-		// simulation-based checks are run through them as well
+		// the wire rules are a universal invariant: besides the error-path generator, the histories of every other
+		// simulation-based check are run through them as well (half of the cases)
 		var c *hist.Case
-		switch rapid.IntRange(0, 9).Draw(rt, "generator") {
-		case 0:
-			c = c07Gen(rt)
-			r.Label("generator/C07")
-		case 1:
-			c = c09Gen(rt)
-			r.Label("generator/C09")
-		case 2:
-			c = c10Gen(rt)
-			r.Label("generator/C10")
-		case 3:
-			c = c11Gen(rt)
-			r.Label("generator/C11")
-		default:
+		type gen struct {
+			name string
+			f    func(*rapid.T) *hist.Case
+		}
+		others := []gen{{"C07", c07Gen}, {"C08", c08Gen}, {"C09", c09Gen}, {"C10", c10Gen}, {"C11", c11Gen}, {"C12", c12Gen}, {"C13", c13Gen}, {"C14", c14Gen},
+			{"C15", c15Gen}, {"C16", c16Gen}, {"C17", c17Gen}, {"C19", c19Gen}, {"C24-outbound", c24GenOutbound}, {"C24-inbound", c24GenInbound},
+			{"C25", c25Gen}, {"C34", c34Gen}, {"C38", c38Gen}, {"C40", c40Gen}}
+		if k := rapid.IntRange(0, 2*len(others)-1).Draw(rt, "generator"); k < len(others) {
+			c = others[k].f(rt)
+			r.Label("generator/" + others[k].name)
+		} else {
 			c = c23Gen(rt, r)
 			r.Label("generator/C23")
 		}
